@@ -225,6 +225,11 @@ NEUTRAL = [
     ('C13', 'bbmd-age-loop-forward-copy', 'bacpypes/bvllservice.py',
      "        for i in range(len(self.bbmdFDT)-1, -1, -1):\n            fdte = self.bbmdFDT[i]\n            fdte.fdRemain -= 1\n\n            # delete it if it expired\n            if fdte.fdRemain <= 0:\n                if _debug: BIPBBMD._debug(\"foreign device expired: %r\", fdte.fdAddress)\n                del self.bbmdFDT[i]",
      "        for fdte in list(self.bbmdFDT):\n            fdte.fdRemain -= 1\n\n            # delete it if it expired\n            if fdte.fdRemain <= 0:\n                self.bbmdFDT.remove(fdte)"),
+    ('C14,C04,C13', 'suspend-task-pop-instead-of-del', 'bacpypes/task.py', "                del self.tasks[i]\n", "                self.tasks.pop(i)\n"),
+    ('C15', 'add-property-dict-copy', 'bacpypes/object.py',
+     "        # make a copy of the properties dictionary\n        self._properties = _copy(self._properties)\n\n        # save the property reference and default value (usually None)",
+     "        # make a copy of the properties dictionary\n        self._properties = dict(self._properties)\n\n        # save the property reference and default value (usually None)"),
+    ('C05,C12', 'in-window-plain-modulo', 'bacpypes/appservice.py', "        rslt = ((seqA - seqB + 256) % 256) < self.actualWindowSize", "        rslt = ((seqA - seqB) % 256) < self.actualWindowSize"),
     ('C15', 'readproperty-reorder-lookups', 'bacpypes/service/object.py',
      "            # get the datatype\n            datatype = obj.get_datatype(apdu.propertyIdentifier)\n            if _debug: ReadWritePropertyServices._debug(\"    - datatype: %r\", datatype)\n\n            # get the value\n            value = obj.ReadProperty(apdu.propertyIdentifier, apdu.propertyArrayIndex)",
      "            # get the value\n            value = obj.ReadProperty(apdu.propertyIdentifier, apdu.propertyArrayIndex)\n\n            # get the datatype\n            datatype = obj.get_datatype(apdu.propertyIdentifier)"),
